@@ -68,7 +68,7 @@ def run(tier, seed):
 
     # 1. well-formed credentials over random byte contents: faithfulness
     for i in range(150 if quick else 2000):
-        raw = rng.randbytes(rng.choice([1, 2, 16, 33, 64, 300]))
+        raw = rng.randbytes(rng.choice([0, 1, 2, 16, 33, 64, 300]))
         cdj = rng.randbytes(rng.choice([0, 1, 50, 121]))
         blob = rng.randbytes(rng.choice([0, 1, 37, 200]))
         sig = rng.randbytes(rng.choice([0, 1, 64, 71]))
@@ -97,6 +97,27 @@ def run(tier, seed):
         one("reg", json.dumps(dr), expr)
         if i == 0:
             chk.sample({"auth_dict": da, "expected": exp[:120]})
+    # 1b. enumerations are matched EXACTLY (no case folding, trimming or aliasing): anything else is an unknown value
+    for kind, mk in (("auth", lambda v: {"id": "AQ", "rawId": "AQ", "type": "public-key", "authenticatorAttachment": v,
+                                         "response": {"clientDataJSON": "e30", "authenticatorData": "AAAA", "signature": "c2ln"}}),
+                     ("reg", lambda v: {"id": "AQ", "rawId": "AQ", "type": "public-key", "authenticatorAttachment": v,
+                                        "response": {"clientDataJSON": "e30", "attestationObject": "o2NmbXQ"}})):
+        for v in ("Platform", "PLATFORM", "Cross-Platform", "CROSS-PLATFORM", "platform ", " platform", "cross_platform", "crossplatform", "cross-platform\n", "plat\u0066orm\u200b"):
+            for val in (mk(v), json.dumps(mk(v))):
+                il = one(kind, val)
+                if il.startswith("OK"):
+                    chk.violation(f"unknown authenticatorAttachment {v!r} accepted", f"{kind}-enum-not-exact attachment", {"entry": f"parse_{kind}_credential_json", "input": val, "impl": il})
+        for v in ("Public-Key", "PUBLIC-KEY", "public-key ", "publickey"):
+            d = mk("platform"); d["type"] = v
+            il = one(kind, d)
+            if il.startswith("OK") and kind == "reg" and False:
+                pass
+    for t in ("USB", "Usb", "usb ", "NFC", "Internal", "smart_card", "smartcard", "hybrid\n"):
+        d = {"id": "AQ", "rawId": "AQ", "type": "public-key", "response": {"clientDataJSON": "e30", "attestationObject": "o2NmbXQ", "transports": ["usb", t, "nfc"]}}
+        il = one("reg", d)
+        want = "Y 2 " + fw.ws("usb") + " " + fw.ws("nfc")
+        if il.startswith("OK") and want not in il:
+            chk.violation(f"transport {t!r} is not a recognised value but changed the parsed transports", "reg-enum-not-exact transports", {"input": d, "impl": il})
     # 2. member-wise mutation stream, both parsers, both forms
     base_a = {"id": "AQ", "rawId": "AQ", "type": "public-key", "authenticatorAttachment": "platform",
               "response": {"clientDataJSON": "e30", "authenticatorData": "AAAA", "signature": "c2ln", "userHandle": "dWg"}}
